@@ -58,8 +58,16 @@ func Now() Time {
 func Since(t Time) Duration { return Now().Sub(t) }
 func Until(t Time) Duration { return t.Sub(Now()) }
 
+// SleepHook, when set, is told about every Sleep made outside a scheduled execution
+// (which otherwise returns at once): sequential harnesses use it to let their fake
+// environment move on while the code under test waits.
+var SleepHook func(d Duration)
+
 func Sleep(d Duration) {
 	if !vsched.Active() {
+		if h := SleepHook; h != nil {
+			h(d)
+		}
 		return
 	}
 	if d <= 0 {
